@@ -53,6 +53,15 @@ def main():
             nested = []
             for s in sigs:
                 kind = s.get("kind", "plain")
+                if kind == "fut":
+                    # the value comes back through a boxed future that the caller polls
+                    ty = g.ty(s["args"][0])
+                    nm = s["name"]
+                    fty = "std::pin::Pin<Box<dyn std::future::Future<Output = %s>>>" % ty
+                    tm.append("        fn %s(&self, a0: %s) -> %s;" % (nm, ty, fty))
+                    im.append("        fn %s(&self, a0: %s) -> %s { vcommon::abi::log(\"%s\", vec![vcommon::Model::to_model(&a0)]); let r: %s = vcommon::abi::next_ret(); Box::pin(async move { r }) }" % (nm, ty, fty, nm, ty))
+                    cm.append('                "%s" => vcommon::Model::to_model(&block_on(self.0.%s(<%s as vcommon::Model>::from_model(&a[0])))),' % (nm, nm, ty))
+                    continue
                 if kind != "plain":
                     # the payload type travels inside a nested exported interface (kind sink) or a closure (kind fn)
                     ty = g.ty(s["args"][0])
@@ -126,6 +135,22 @@ def main():
            "use savefile::prelude::*;", "use savefile_derive::Savefile;", "use savefile_derive::savefile_abi_exportable;",
            "use savefile_abi::{AbiConnection, AbiExportable};", ""]
     src += [g.defs[n] for n in g.order]
+    src.append("""/// polls a future to completion on this thread (the futures of the generated implementations are ready at once)
+pub fn block_on<T>(mut f: std::pin::Pin<Box<dyn std::future::Future<Output = T>>>) -> T {
+    struct W;
+    impl std::task::Wake for W {
+        fn wake(self: std::sync::Arc<Self>) {}
+    }
+    let waker = std::task::Waker::from(std::sync::Arc::new(W));
+    let mut cx = std::task::Context::from_waker(&waker);
+    for _ in 0..1000 {
+        if let std::task::Poll::Ready(v) = f.as_mut().poll(&mut cx) {
+            return v;
+        }
+    }
+    panic!("harness: future still pending after 1000 polls")
+}
+""")
     src += mods
     src.append("pub fn connect(fam: u32, i: u32, j: u32) -> Result<Box<dyn vcommon::abi::Caller>, SavefileError> {\n    match (fam, i, j) {")
     src += arms
